@@ -25,7 +25,8 @@ MANIFEST = {
             'histories generated; nothing is claimed beyond them.'
             '  Second session: 40% of the histories register application-like callbacks besides the observers (one-shot callbacks which unregister themselves, callbacks which register others, raising callbacks): the observers must be told the same states.'
             '  The pilot-end workload also runs both orders without overlap (pilot first, then the late task notification; tasks first, then the pilot end).'
-            '  Callbacks registered with cb_data and registered again (new data) must be told every state once, with the latest data.',
+            '  Callbacks registered with cb_data and registered again (new data) must be told every state once, with the latest data.'
+            '  In 60% of the pilot-end races a third thread registers callbacks on the tasks themselves (Task.register_callback) while the notifications are handled: what such a callback is told moves forward only, each state once, the final state last.',
     'note': 'trusts the reference model (rpverif/props/c06.py:Model) as the '
             'reading of the documented state model; histories are sampled, '
             'not enumerated; callbacks observed through register_callback.'}
@@ -423,7 +424,10 @@ def gen_concurrent(rng):
             # notification for a task of a pilot which ended before, and the
             # end of a pilot whose tasks ended before
             'order': rng.choice(['race', 'race', 'pilot_first',
-                                 'tasks_first'])}
+                                 'tasks_first']),
+            # the application registers callbacks on the tasks themselves
+            # while the notifications are being handled
+            'late_reg': rng.choice([None, None, 0, 0.0005, 0.002])}
 
 
 def run_concurrent(case, res):
@@ -486,10 +490,27 @@ def run_concurrent(case, res):
         except Exception as e:
             errs.append('pilot notification: %r' % e)
 
+    late = list()
+    def late_cb(task, state):
+        with lock:
+            late.append((task.uid, state))
+    def registrar():
+        time.sleep(case['late_reg'])
+        try:
+            for u in uids:
+                tasks[u].register_callback(late_cb)
+                time.sleep(rng.choice(sleeps))
+        except Exception as e:
+            errs.append('register_callback: %r' % e)
+    c = None
+    if case.get('late_reg') is not None:
+        c = mt.Thread(target=registrar, name='app-register')
+
     m_task.Task._update = slow
     try:
         a = mt.Thread(target=notify, name='state-sub')
         b = mt.Thread(target=die,    name='pilot-cb')
+        if c: c.start()
         order = case.get('order', 'race')
         res.see('concurrent_orders', order)
         if order == 'pilot_first':
@@ -501,13 +522,15 @@ def run_concurrent(case, res):
         else:
             a.start(); b.start()
             a.join(timeout=30); b.join(timeout=30)
+        if c: c.join(timeout=30)
     finally:
         m_task.Task._update = orig
 
     res.count('concurrent_histories')
     ctx = {'case': case, 'callbacks': list(seen), 'errors': errs,
+           'late_callbacks': list(late),
            'states': {u: t.state for u, t in tasks.items()}}
-    if a.is_alive() or b.is_alive():
+    if a.is_alive() or b.is_alive() or (c and c.is_alive()):
         res.violation('concurrent/deadlock', 'the notification threads did '
                       'not finish', ctx)
         return
@@ -540,6 +563,19 @@ def run_concurrent(case, res):
         if vals != sorted(vals):
             res.violation('concurrent/callback-regress', '%s: %s' % (u, cbs),
                           ctx)
+            return
+        # a callback registered on the task while all this happens sees
+        # what is announced from then on: forward only, each state once
+        lcbs = [s for x, s in late if x == u]
+        if lcbs:
+            res.count('late_registered_callback_calls', len(lcbs))
+        lv = [_V[s] for s in lcbs]
+        lfin = [s for s in lcbs if s in FINAL_STATES]
+        if lv != sorted(lv) or len(lcbs) != len(set(lcbs)) or len(lfin) > 1 \
+                or (lfin and lcbs[-1] != lfin[0]):
+            res.violation('concurrent/late-registered-callback-order',
+                          '%s: a callback registered during the notifications '
+                          'was called with %s' % (u, lcbs), ctx)
             return
 
 
